@@ -438,6 +438,30 @@ fn run_case<T: Scalar>(desc: &str, ops: &[&str]) -> String {
                     }
                 }
             }
+            // W<i>=<seed>*<k>: k quiet updates with the values of an integer walk in tenth units generated here (the recurrence of
+            // FloatExec.walk_ops / props.lcg_walk continued from <seed>, position 2000): prefixes of millions of values, f64 only
+            "W" => {
+                let (tok, reps) = val.unwrap().split_once('*').unwrap();
+                let reps: usize = reps.parse().unwrap();
+                let mut s: u64 = tok.parse().unwrap();
+                let mut c: i64 = 2000;
+                let v = inst[idx].as_mut().unwrap();
+                let r = catch_unwind(AssertUnwindSafe(|| {
+                    for _ in 0..reps {
+                        s = s.wrapping_mul(6364136223846793005).wrapping_add(1442695040888963407);
+                        let st = (((s >> 33) % 397) as i64 + 1) * if (s >> 60) & 1 == 1 { 1 } else { -1 };
+                        c = if 4 <= c + st && c + st <= 4000 { c + st } else { c - st };
+                        v.update(<T as num::NumCast>::from((c as f64) / 10.0).unwrap());
+                    }
+                }));
+                match r {
+                    Ok(()) => out.push('-'),
+                    Err(_) => {
+                        out.push('E');
+                        inst[idx] = None;
+                    }
+                }
+            }
             "u" | "q" | "v" => {
                 let quiet = kind == "q";
                 let nopop = kind == "v";
